@@ -18,6 +18,7 @@ import (
 	"go/types"
 	"sort"
 	"strings"
+	"sync"
 
 	"golang.org/x/tools/go/ssa"
 )
@@ -241,6 +242,48 @@ func sigKey(sig *types.Signature) string {
 		sb.WriteString("...")
 	}
 	return sb.String()
+}
+
+// newLenflowShared creates a worker engine that shares the read-only tables of base.
+func newLenflowShared(c *Ctx, maxDepth int, base *lfEngine) *lfEngine {
+	e := &lfEngine{c: c, obls: map[string]*lfObl{}, maxSteps: base.maxSteps, maxDepth: maxDepth, analysed: map[*ssa.Function]bool{}, scheduled: map[*ssa.Function]bool{}, copyTotal: map[*ssa.Call]*lfCopy{}, pure: map[*ssa.Function]int{}, loopsSeen: map[string]string{}, loopPos: map[string]token.Pos{}}
+	e.addrTaken = base.addrTaken
+	e.bits = base.bits
+	e.fieldWidth = base.fieldWidth
+	return e
+}
+
+// merge folds a worker's results into e.
+func (e *lfEngine) merge(w *lfEngine) {
+	for _, key := range w.order {
+		o := w.obls[key]
+		if cur, ok := e.obls[key]; ok {
+			cur.Proved += o.Proved
+			cur.Failed += o.Failed
+			cur.Unknown += o.Unknown
+			if cur.Why == "" {
+				cur.Why = o.Why
+			}
+		} else {
+			e.obls[key] = o
+			e.order = append(e.order, key)
+		}
+	}
+	for k, v := range w.loopsSeen {
+		e.loopsSeen[k] = v
+		e.loopPos[k] = w.loopPos[k]
+	}
+	for f := range w.analysed {
+		e.analysed[f] = true
+	}
+	for k, v := range w.copyTotal {
+		if cur, ok := e.copyTotal[k]; ok {
+			cur.Total += v.Total
+			cur.Partial += v.Partial
+		} else {
+			e.copyTotal[k] = v
+		}
+	}
 }
 
 func (e *lfEngine) newSym(name string) Sym {
@@ -504,9 +547,14 @@ func (e *lfEngine) val(fr *lfFrame, st *lfState, v ssa.Value) lfVal {
 	return r
 }
 
-var globalIDs = map[*ssa.Global]int{}
+var (
+	globalIDs   = map[*ssa.Global]int{}
+	globalIDsMu sync.Mutex
+)
 
 func (e *lfEngine) globalID(g *ssa.Global) int {
+	globalIDsMu.Lock()
+	defer globalIDsMu.Unlock()
 	if id, ok := globalIDs[g]; ok {
 		return id
 	}
